@@ -2178,10 +2178,21 @@ class Interp:
             arglist = [recv] + arglist
         elif is_method and recv is None:
             arglist = [("param", "self")] + arglist
+        # f(a, b, *rest, **extra) handed to a function whose own *args / **kwargs parameter takes exactly that: pass-through
+        star_through = None
+        if arglist and arglist[-1][0] == "star" and params.vararg and len(arglist) - 1 == len(pos) and not any(a[0] == "star" for a in arglist[:-1]):
+            star_through = arglist[-1][1]
+            arglist = arglist[:-1]
+        kw_through = None
+        if params.kwarg and sum(1 for k, _ in kwargs if k == "**") == 1 and kwargs and kwargs[-1][0] == "**":
+            kw_through = kwargs[-1][1]
+            kwargs = tuple(kwargs[:-1])
         if any(a[0] == "star" for a in arglist) or any(k == "**" for k, _ in kwargs):
             raise Undecided(f"star-args in inlined call to {fi.fq}")
         for nm, v in zip(pos, arglist):
             bound[nm] = v
+        if star_through is not None:
+            bound[params.vararg.arg] = star_through
         if len(arglist) > len(pos):
             if params.vararg:
                 bound[params.vararg.arg] = ("tuple", tuple(arglist[len(pos):]))
@@ -2204,7 +2215,8 @@ class Interp:
             if params.kwarg:
                 # **kwargs collects, in call order, the keyword arguments that name no parameter
                 named = {a.arg for a in params.posonlyargs + params.args + params.kwonlyargs}
-                env[("L", no, params.kwarg.arg)] = ("dict", tuple((("const", k), v) for k, v in kwargs if k not in named))
+                extra_ = tuple((("const", k), v) for k, v in kwargs if k not in named)
+                env[("L", no, params.kwarg.arg)] = kw_through if (kw_through is not None and not extra_) else (("dict", extra_) if kw_through is None else ("dict", extra_ + ((None, kw_through),)))
             for nm, v in captured:
                 if ("L", no, nm) not in env:
                     env[("L", no, nm)] = v
